@@ -84,7 +84,7 @@ def _trace(evs: list[str]) -> list[str]:
     return [e for e in evs if e[0] != 'P']
 
 
-def _routing_ok(evs: list[str], script: K.Script) -> str | None:
+def _routing_ok(evs: list[str], script: K.Script, files: set | None = None) -> str | None:
     """each visited file to exactly one of on_match/on_skip, on_error only when something raised, values
     passed through unchanged, on_reset once and first"""
     if not evs or evs[0] != 'R' or evs.count('R') != 1:
@@ -92,6 +92,15 @@ def _routing_ok(evs: list[str], script: K.Script) -> str | None:
     ms = [e[1:] for e in evs if e[0] in 'MS']
     if len(set(ms)) != len(ms):
         return 'a file went to on_match/on_skip more than once'
+    # EVERY visited file goes to one of the two — also one whose validation hook or comparison raised (on_error is
+    # additional, not instead: added after seeded change C15g, which sent such a file to on_error only).  Visited =
+    # on_validate_file was invoked for it, or on_error was invoked for a FILE of the tree.
+    if files is not None:
+        routed = set(ms)
+        for e in evs:
+            if e[0] == 'F' or (e[0] == 'E' and common.dec(e[1:]) in files):
+                if e[1:] not in routed:
+                    return f'the visited file {common.dec(e[1:])!r} went to neither on_match nor on_skip'
     want = []
     for e in evs:
         if e[0] == 'M':
@@ -380,7 +389,8 @@ def run(ck: Check) -> int:
                 full = _results(full_evs)
                 if (res1, log1, sk1) != (res2, log2, sk2):
                     ck.report(Failing('two match() runs of one object differ', desc, [log1, sk1], [log2, sk2]))
-                rt = _routing_ok(full_evs, sc0)
+                file_keys = {'/'.join(r + [n]) for r, n in K.all_paths(case.tree)[0]}
+                rt = _routing_ok(full_evs, sc0, file_keys)
                 if rt:
                     ck.report(Failing('routing: ' + rt, desc, 'routing as stated', ' '.join(full_evs)))
                 if sk1 != sum(1 for e in log1 if e[0] == 'S'):
@@ -454,7 +464,7 @@ def run(ck: Check) -> int:
                     if sk_after != sum(1 for e in evs if e[0] == 'S'):
                         ck.report(Failing('get_skipped() after an aborted run != number of on_skip calls of that run', inp,
                                           sum(1 for e in evs if e[0] == 'S'), sk_after))
-                    rt = _routing_ok(evs, sc)
+                    rt = _routing_ok(evs, sc, file_keys)
                     if rt:
                         ck.report(Failing('routing (aborted run): ' + rt, inp, 'routing as stated', ' '.join(evs)))
                     if kind == 'init' and (not aborted or res):
